@@ -42,7 +42,8 @@ RULE = ('every spec of: [opt] rectangular nx,ny in 1..3 x 3 spacing patterns x 4
         'block orders; [derived] 3x2 and g7 refined by each single column and by all, reduced to each half, rotated '
         '30 degrees, translated; [layers] stored layer centres that are not midpoints (a quarter up, exactly 0.0 in the '
         'first layer, 0.0 for the atmosphere layer) x surfaces of exactly 0.00 (none, two columns, all) on a geometry '
-        'with its top at +15 x 2 conventions x 3 atmosphere types x units; [route] unit type reached through the '
+        'with its top at +15 x 2 conventions x 3 atmosphere types x units; [assign] naming convention (among 0, 2, 3) and atmosphere type reached by assignment on '
+        'an existing geometry, every ordered pair, alone and combined in both orders; [route] unit type reached through the '
         'other unit type, with and without a write in between; [reader] one mulgrid object that has read a feet/dmplex/'
         'angle or a metres/layer_column file re-used through read() x 3 block orders x units x 2 conventions x 3 '
         'atmosphere types; [derived] also rename_column of each single column, subsets, all in reverse and in list '
@@ -212,6 +213,26 @@ def specs_layers(tier):
     return out
 
 
+def specs_assign(tier):
+    """Naming convention and atmosphere type reached by assignment on an existing geometry.  Conventions 0, 2 and 3
+    have the same name lengths (3-character columns, 2-character layers), so a geometry named under one of them is
+    a legal geometry under the others; convention 1 (2-character columns) is not interchangeable with them."""
+    out = []
+    for a, b in itertools.permutations((0, 2, 3), 2):
+        for atm in range(3):
+            for unit in ('m', 'ft'):
+                out.append(rect(3, 2, 'mixed', a, atm, unit, conv_to=b, surface={'cols': [1, 4], 'kind': 'mixed'}))
+            out.append(rect(2, 1, 'increasing', a, atm, 'm', 'dmplex', conv_to=b))
+    for conv in range(4):
+        for a, b in itertools.permutations(range(3), 2):
+            out.append(rect(3, 2, 'mixed', conv, a, 'm', atm_to=b, surface={'cols': [1, 4], 'kind': 'mixed'}))
+    for a, b in itertools.permutations((0, 2, 3), 2):
+        for x, y in itertools.permutations(range(3), 2):
+            for first in ('conv-first', 'atm-first'):
+                out.append(rect(2, 2, 'mixed', a, x, 'm', conv_to=b, atm_to=y, assign_order=first))
+    return out
+
+
 def specs_route(tier):
     """The route by which the unit type was reached: through the other unit type, with and without a write of
     the geometry in between (the direct route is every other group)."""
@@ -331,7 +352,7 @@ def specs_derived(tier):
 
 
 GROUPS = [('opt', specs_opt, 48), ('surf', specs_surf, 32), ('wells', specs_wells, 8), ('names', specs_names, 8),
-          ('limits', specs_limits, 2), ('layers', specs_layers, 4), ('route', specs_route, 2), ('over', specs_over, 2),
+          ('limits', specs_limits, 2), ('layers', specs_layers, 4), ('route', specs_route, 2), ('assign', specs_assign, 4), ('over', specs_over, 2),
           ('reader', lambda tier: specs_reader(tier), 4), ('shipped', specs_shipped, 64),
           ('derived', specs_derived, 32), ('order', lambda tier: specs_order(tier), 4)]
 
@@ -388,6 +409,16 @@ def build(spec):
                                            origin=origin, block_order=bo, **kw)
         if order == 'dmplex>none':
             g.block_order = None
+        # header options reached by ASSIGNMENT on the existing geometry (the constructor route is every other group)
+        steps = []
+        if 'conv_to' in spec:
+            steps.append(('convention', spec['conv_to']))
+        if 'atm_to' in spec:
+            steps.append(('atmosphere_type', spec['atm_to']))
+        if spec.get('assign_order') == 'atm-first':
+            steps.reverse()
+        for attr, val in steps:
+            setattr(g, attr, val)
     else:
         g = mulgrids.mulgrid(os.path.join(data_dir(), base + '.dat'))
         if spec.get('asis'):
